@@ -24,9 +24,11 @@ impl Errs {
 /// Run `body` (which creates and drops its runtime) on a fresh simulated kernel.
 /// A violation raised by the kernel (e.g. `blocked-forever`) wins over the panic it unwinds with.
 pub fn run_on_kernel(cfg: simkernel::KConfig, body: impl FnOnce()) -> Result<simkernel::EndState, Violation> {
+    let fds_before = open_fds();
     simkernel::begin(cfg);
     let r = std::panic::catch_unwind(std::panic::AssertUnwindSafe(body));
     let end = simkernel::end();
+    let fds_after = open_fds();
     simcore::log(|| {
         format!(
             "kernel: {} enters, {} sqes, {} cqes ({} overflowed), {} pool jobs, {} clock jumps, {:.6}s simulated; pending at end {:?}",
@@ -44,7 +46,33 @@ pub fn run_on_kernel(cfg: simkernel::KConfig, body: impl FnOnce()) -> Result<sim
     if let Err(p) = r {
         std::panic::resume_unwind(p);
     }
+    // the descriptor ledger: the body creates and drops its runtime and everything it opened
+    let leaked: Vec<String> = fds_after.iter().filter(|(fd, _)| !fds_before.iter().any(|(b, _)| b == fd)).map(|(fd, what)| format!("{fd} -> {what}")).collect();
+    let vanished: Vec<String> = fds_before.iter().filter(|(fd, _)| !fds_after.iter().any(|(a, _)| a == fd)).map(|(fd, what)| format!("{fd} -> {what}")).collect();
+    if !leaked.is_empty() {
+        return Err(Violation::new("fd-leak", format!("descriptors still open after the runtime and everything the program opened were dropped: {leaked:?}")));
+    }
+    if !vanished.is_empty() {
+        return Err(Violation::new("fd-closed-behind", format!("descriptors that were open before the run and do not belong to it were closed: {vanished:?}")));
+    }
     Ok(end)
+}
+
+/// The process's open descriptors with what they refer to (kind only: no inode numbers, which differ
+/// between processes and would make logs of the same run differ).
+fn open_fds() -> Vec<(i32, String)> {
+    let mut v = Vec::new();
+    let Ok(dir) = std::fs::read_dir("/proc/self/fd") else { return v };
+    let dir_fd_guess: Vec<_> = dir.filter_map(|e| e.ok()).collect();
+    for e in dir_fd_guess {
+        let Ok(fd) = e.file_name().to_string_lossy().parse::<i32>() else { continue };
+        let Ok(target) = std::fs::read_link(e.path()) else { continue }; // the directory handle itself
+        let t = target.to_string_lossy().to_string();
+        let kind = t.split(':').next().unwrap_or("").trim_start_matches("anon_inode").to_string();
+        v.push((fd, if t.starts_with('/') { t } else { format!("{kind}{}", if t.contains("anon_inode") { t.clone() } else { String::new() }) }));
+    }
+    v.sort();
+    v
 }
 
 pub fn first_diff(a: &[u8], b: &[u8]) -> String {
